@@ -514,6 +514,7 @@ type Contract struct {
 	Progress  map[int][]string
 	NoCall    bool // closure arguments are stored, not invoked, by this function
 	PureParams []string // func-typed parameters assumed to be pure functions of their arguments
+	Invokes   []SExpr // trusted behaviour: exactly these calls of function-valued parameters, in order; their results are the function's results
 	LoopExit  map[int][]*Clause // loop ordinal → what holds whenever control leaves the loop for the code after it
 	GuardedParams map[string]string // map-typed parameter → "Type.mu": its contents may only be accessed with that mutex held
 }
@@ -576,7 +577,7 @@ var clauseKeywords = map[string]bool{
 	"func": true, "requires": true, "ensures": true, "loop": true, "modifies": true, "trusted": true,
 	"pure": true, "inline": true, "noinline": true, "strings": true, "bytes": true, "panics": true, "bind": true, "sink": true,
 	"axiom": true, "log": true, "atomic": true, "guarded_by": true, "immutable": true, "must-close": true,
-	"opaque": true, "unroll": true, "yield-requires": true, "invariant": true, "seq-items": true, "private": true, "pure-param": true, "public-invariant": true, "iface-ensures": true, "iface-pure": true, "lemma": true, "holds": true, "guarded-param": true, "fn-sink": true, "nocall": true, "fn-type-pure": true, "producer": true, "closure": true, "package": true, "assume-return": true,
+	"opaque": true, "unroll": true, "yield-requires": true, "invariant": true, "seq-items": true, "private": true, "pure-param": true, "public-invariant": true, "iface-ensures": true, "iface-pure": true, "lemma": true, "holds": true, "guarded-param": true, "invokes": true, "fn-sink": true, "nocall": true, "fn-type-pure": true, "producer": true, "closure": true, "package": true, "assume-return": true,
 }
 
 // LoadContractFile parses one contracts_verif.go file (or any file with //@ lines).
@@ -926,6 +927,21 @@ func (cs *ContractSet) LoadContractFile(path, pkgPath string) error {
 		case "holds":
 			if cur != nil {
 				cur.Holds = append(cur.Holds, strings.TrimSpace(rest))
+			}
+		case "invokes":
+			// invokes f(a, b); f(c, d)
+			if cur != nil {
+				for _, part := range strings.Split(rest, ";") {
+					part = strings.TrimSpace(part)
+					if part == "" {
+						continue
+					}
+					e, err := ParseSpecExpr(part)
+					if err != nil {
+						return fmt.Errorf("%s:%d: %v", path, it.line, err)
+					}
+					cur.Invokes = append(cur.Invokes, e)
+				}
 			}
 		case "guarded-param":
 			// guarded-param m Type.mu
